@@ -286,3 +286,42 @@ theorem dd2_linProd_zero (x y c : Nat → Rat) (ox oy : Nat) : ∀ (d nx ny : Na
     rw [z1, z2]; ring
 
 end PsV
+
+namespace PsV
+open Finset
+
+/-! ## explicit weights, shifting -/
+
+/-- weight of `f i` in `divdiff x f n o` -/
+def ddW (x : Nat → Rat) : Nat → Nat → Nat → Rat
+  | 0, _, _ => 0
+  | 1, o, i => if i = o then 1 else 0
+  | n+2, o, i => (ddW x (n+1) (o+1) i - ddW x (n+1) o i) / (x (o+n+1) - x o)
+
+/-- a divided difference is a fixed linear combination of the values -/
+theorem dd_eq_sum (x f : Nat → Rat) : ∀ (n o N : Nat), o + n ≤ N →
+    divdiff x f n o = ∑ i ∈ range N, ddW x n o i * f i
+  | 0, o, N, _ => by simp [dd_zero, ddW]
+  | 1, o, N, h => by
+    simp only [dd_one, ddW, ite_mul, one_mul, zero_mul]
+    rw [Finset.sum_ite_eq' (range N) o f]
+    simp [show o < N by omega]
+  | n+2, o, N, h => by
+    rw [dd_succ, dd_eq_sum x f (n+1) (o+1) N (by omega), dd_eq_sum x f (n+1) o N (by omega)]
+    simp only [ddW]
+    rw [← Finset.sum_sub_distrib, div_eq_mul_inv, Finset.sum_mul]
+    apply Finset.sum_congr rfl
+    intro i _
+    ring
+
+theorem dd_shift (x f : Nat → Rat) (j : Nat) : ∀ (n o : Nat),
+    divdiff (fun a => x (j + a)) (fun a => f (j + a)) n o = divdiff x f n (j + o)
+  | 0, _ => rfl
+  | 1, _ => rfl
+  | n+2, o => by
+    rw [dd_succ, dd_succ, dd_shift x f j (n+1) (o+1), dd_shift x f j (n+1) o]
+    have e1 : j + (o + 1) = j + o + 1 := by omega
+    have e2 : j + (o + n + 1) = j + o + n + 1 := by omega
+    rw [e1, e2]
+
+end PsV
